@@ -27,7 +27,7 @@ func (h *vH) run(c *Container, q vReq) vOut {
 		o.params = h.params[0]
 		o.selPath = h.selPath[0]
 	}
-	if v, ok := rec.hdr["Allow"]; ok && len(v) > 0 {
+	if v, ok := rec.out()["Allow"]; ok && len(v) > 0 {
 		o.allow = v[0]
 	}
 	return o
